@@ -245,6 +245,9 @@ void push_constant_string (const char *p) {
   sp->type = T_STRING;
   sp->subtype = STRING_CONSTANT;
   sp->u.const_string = p;
+#ifdef VERIF_SYNC_REFED
+  sp->u.string = (char *) p;	/* same member in a normal build */
+#endif
 }
 
 /*
